@@ -81,8 +81,9 @@ package stack
 
 // C06 at the hand-over from network to link layer: an IPv4 packet is handed down with a total
 // length field that equals the bytes it carries, and a header checksum that verifies.
-//@ func (LinkEndpoint).WritePacket props C07 C06 C11
+//@ func (LinkEndpoint).WritePacket props C07 C06 C11 C12
 //@   nobody
+//@   ghost_set arpSent = old(ghost(arpSent)) + ite(protocol == header.ARPProtocolNumber, 1, 0)
 //@   requires implies(protocol == header.IPv4ProtocolNumber, len(hdr.buf) - hdr.usedIdx >= 20 && int(be16(hdr.buf, hdr.usedIdx + 2)) == len(hdr.buf) - hdr.usedIdx + payload.size)
 //@   requires implies(protocol == header.IPv4ProtocolNumber, oc16(wsum16(hdr.buf, hdr.usedIdx, hdr.usedIdx + 20)) == 0)
 //@   modifies everything()
@@ -112,6 +113,9 @@ package stack
 // Named modifies sets (used as `modifies modset(NAME)`).
 
 // The ghost record of what was handed to the network layer.
+//@ func modset.ARPGHOSTS
+//@   modifies ghost(lastLocalCheck), ghost(learned), ghost(arpSent)
+
 //@ func modset.NETGHOSTS
 //@   modifies ghost(tcpSegs), ghost(lastTCPFlags), ghost(lastTCPSeq), ghost(lastTCPAck), ghost(sentNonFin), ghost(sentFin)
 //@   modifies ghost(icmpSent), ghost(lastICMPType), ghost(lastICMPCode), ghost(lastICMPHdrLen), ghost(lastICMPPayloadArr), ghost(lastICMPPayloadOff), ghost(lastICMPPayloadLen)
@@ -155,3 +159,26 @@ package stack
 //@   ensures implies(old(has(d.protocol, protocolIDs{r.NetProto, protocol})), result == (old(demuxPick(d.protocol[protocolIDs{r.NetProto, protocol}].endpoints, id)) != nil))
 //@   ensures ghost(handled) == old(ghost(handled)) + ite(result, 1, 0)
 //@   modifies everything(), ghost(handled)
+
+// ---------------------------------------------------------------------------
+// C12: ASSUMED interface contracts of the link address cache as seen from the ARP endpoint.
+// The answer of CheckLocalAddress is remembered in ghost state so that the ARP contract can
+// say "a reply is sent only if the target address is one of ours".
+//@ func (LinkAddressCache).CheckLocalAddress props C12 C07
+//@   nobody
+//@   ghost_set lastLocalCheck = int(result)
+
+//@ func (LinkAddressCache).AddLinkAddress props C12 C07
+//@   nobody
+//@   ghost_set learned = old(ghost(learned)) + 1
+//@   modifies everything(), ghost(learned)
+
+// ASSUMED: the query methods of a link endpoint change nothing.
+//@ func (LinkEndpoint).MaxHeaderLength props C07 C06 C12
+//@   nobody
+//@ func (LinkEndpoint).MTU props C07 C06 C12
+//@   nobody
+//@ func (LinkEndpoint).Capabilities props C07 C06 C12
+//@   nobody
+//@ func (LinkEndpoint).LinkAddress props C07 C06 C12
+//@   nobody
